@@ -1,44 +1,5 @@
-/-! Feasibility prototype: label-correcting shortest paths as in updateRoutingTable. -/
-namespace Routing
-
-abbrev Node := Nat
-
-structure Graph where
-  adj  : Node → List (Node × Nat)
-  isKey : Node → Bool
-
-/-- walks from `s` over key nodes, with total weight -/
-inductive Path (g : Graph) (s : Node) : Node → Nat → Prop
-  | nil : Path g s s 0
-  | snoc {u v : Node} {W w : Nat} : Path g s u W → (v, w) ∈ g.adj u → g.isKey v = true → Path g s v (W + w)
-
-structure St where
-  cost  : Node → Option Nat
-  prev  : Node → Option Node
-  queue : List Node
-
-def better (s : St) (v : Node) (c : Nat) : Bool :=
-  match s.cost v with
-  | none => true
-  | some cv => decide (c < cv)
-
-def improve (s : St) (u v : Node) (c : Nat) : St :=
-  { cost := fun x => if x = v then some c else s.cost x
-    prev := fun x => if x = v then some u else s.prev x
-    queue := if v ∈ s.queue then s.queue else s.queue ++ [v] }
-
-def relaxEdge (g : Graph) (u : Node) (cu : Nat) (s : St) (e : Node × Nat) : St :=
-  if g.isKey e.1 && better s e.1 (cu + e.2) then improve s u e.1 (cu + e.2) else s
-
-def popRelax (g : Graph) (s : St) (u : Node) : St :=
-  let s1 : St := { s with queue := s.queue.erase u }
-  match s.cost u with
-  | none => s1
-  | some cu => (g.adj u).foldl (relaxEdge g u cu) s1
-
-inductive Reach (g : Graph) (init : St) : St → Prop
-  | base : Reach g init init
-  | step {s : St} {u : Node} : Reach g init s → u ∈ s.queue → Reach g init (popRelax g s u)
+import Receptor.Model.Routing
+namespace Receptor.Routing
 
 @[simp] theorem improve_cost_self (s : St) (u v c) : (improve s u v c).cost v = some c := by simp [improve]
 @[simp] theorem improve_cost_ne (s : St) (u v c x) (h : x ≠ v) : (improve s u v c).cost x = s.cost x := by simp [improve, h]
@@ -68,7 +29,7 @@ structure Mid (g : Graph) (src u : Node) (cu : Nat) (done : List (Node × Nat)) 
   relaxedDone : ∀ v w, (v, w) ∈ done → g.isKey v = true → ∃ cv, s.cost v = some cv ∧ cv ≤ cu + w
 
 /-- the improving case: v is a key, and cu + w beats the current label of v (or v has none) -/
-theorem mid_improve {g : Graph} {src u cu done} {s : St} {v w : Node}
+theorem mid_improve {g : Graph} {src u cu done} {s : St} {v : Node} {w : Nat}
     (hm : Mid g src u cu done s) (he : (v, w) ∈ g.adj u) (hk : g.isKey v = true)
     (hb : ∀ cv, s.cost v = some cv → cu + w < cv) :
     Mid g src u cu ((v, w) :: done) (improve s u v (cu + w)) := by
@@ -194,11 +155,6 @@ theorem inv_reach {g : Graph} {src : Node} {init s : St}
   | base => exact h0
   | step _ _ ih => exact inv_popRelax ih
 
-def initSt (src : Node) (keys : List Node) : St :=
-  { cost := fun x => if x = src then some 0 else none
-    prev := fun _ => none
-    queue := src :: keys }
-
 theorem inv_init (g : Graph) (src : Node) (keys : List Node) : Inv g src (initSt src keys) := by
   refine ⟨by simp [initSt], ?_, ?_, ?_⟩
   · intro v c h
@@ -238,6 +194,204 @@ theorem lc_correct {g : Graph} {src : Node} {keys : List Node} {s : St}
     obtain ⟨c', hc', _⟩ := key v W hp
     rw [hn] at hc'; cases hc'
 
-#print axioms lc_correct
 
-end Routing
+
+/-- positive edge weights -/
+def Positive (g : Graph) : Prop := ∀ u v w, (v, w) ∈ g.adj u → 0 < w
+
+/-- At termination, the label of every non-source labelled node equals label(prev) + edge weight. -/
+theorem chain_eq {g : Graph} {src : Node} {s : St} (hi : Inv g src s) (hq : s.queue = [])
+    (v : Node) (c : Nat) (hv : v ≠ src) (hc : s.cost v = some c) (hkv : g.isKey v = true) :
+    ∃ p w cp, s.prev v = some p ∧ (v, w) ∈ g.adj p ∧ s.cost p = some cp ∧ cp + w = c := by
+  obtain ⟨p, w, cp, hp, hadj, hcp, hle⟩ := hi.chain v c hv hc
+  obtain ⟨cv, hcv, hle'⟩ := hi.relaxed p cp (by simp [hq]) hcp v w hadj hkv
+  rw [hc] at hcv; cases hcv
+  exact ⟨p, w, cp, hp, hadj, hcp, by omega⟩
+
+/-- the least walk weight -/
+def IsDist (g : Graph) (a b : Node) (c : Nat) : Prop := Path g a b c ∧ ∀ W, Path g a b W → c ≤ W
+
+theorem path_trans {g : Graph} {a b c : Node} {W1 W2 : Nat}
+    (h1 : Path g a b W1) (h2 : Path g b c W2) : Path g a c (W1 + W2) := by
+  induction h2 with
+  | nil => simpa using h1
+  | snoc _ hadj hk ih => rw [← Nat.add_assoc]; exact Path.snoc ih hadj hk
+
+/-- Main next-hop lemma: if the walk from `d` finds hop `h`, then `h` is a direct neighbour of `src`
+    and cost d = w(src,h) + (weight of a walk h ⇝ d). -/
+theorem nextHop_spec {g : Graph} {src : Node} {s : St} (hi : Inv g src s) (hq : s.queue = [])
+    (hkeys : ∀ v c, s.cost v = some c → v ≠ src → g.isKey v = true) :
+    ∀ fuel d h c, nextHop s src fuel d = some h → s.cost d = some c → d ≠ src →
+      ∃ w0 R, (h, w0) ∈ g.adj src ∧ s.cost h = some w0 ∧ Path g h d R ∧ w0 + R = c := by
+  intro fuel
+  induction fuel with
+  | zero => intro d h c hn; simp [nextHop] at hn
+  | succ n ih =>
+    intro d h c hn hc hd
+    obtain ⟨p, w, cp, hp, hadj, hcp, heq⟩ := chain_eq hi hq d c hd hc (hkeys d c hc hd)
+    simp only [nextHop, hp] at hn
+    by_cases hps : p = src
+    · subst hps
+      simp at hn; subst hn
+      rw [hi.src0] at hcp; cases hcp
+      exact ⟨w, 0, hadj, by rw [hc]; congr 1; omega, Path.nil, by omega⟩
+    · simp [hps] at hn
+      obtain ⟨w0, R, hadj0, hch, hpath, hsum⟩ := ih p h cp hn hcp hps
+      exact ⟨w0, R + w, hadj0, hch, Path.snoc hpath hadj (hkeys d c hc hd), by omega⟩
+
+/-- the hop is on a least-cost path: dist src d = w(src,h) + dist h d -/
+theorem nextHop_on_shortest {g : Graph} {src : Node} {keys : List Node} {s : St}
+    (hr : Reach g (initSt src keys) s) (hq : s.queue = [])
+    (hkeys : ∀ v c, s.cost v = some c → v ≠ src → g.isKey v = true)
+    (fuel d h c) (hn : nextHop s src fuel d = some h) (hc : s.cost d = some c) (hd : d ≠ src) :
+    ∃ w0 R, (h, w0) ∈ g.adj src ∧ IsDist g src d c ∧ IsDist g h d R ∧ c = w0 + R := by
+  have hi := inv_reach (inv_init g src keys) hr
+  obtain ⟨w0, R, hadj0, hch, hpath, hsum⟩ := nextHop_spec hi hq hkeys fuel d h c hn hc hd
+  have hdist := (lc_correct hr hq).1 d c hc
+  refine ⟨w0, R, hadj0, hdist, ⟨hpath, ?_⟩, hsum.symm⟩
+  intro W hW
+  by_cases hhs : h = src
+  · subst hhs
+    rw [hi.src0] at hch; cases hch
+    have := hdist.2 W hW; omega
+  · have hkh : g.isKey h = true := hkeys h w0 hch hhs
+    have p1 : Path g src h (0 + w0) := Path.snoc Path.nil hadj0 hkh
+    have p2 := path_trans p1 hW
+    have := hdist.2 _ p2
+    omega
+
+
+
+theorem reach_trans {g : Graph} {a b c : St} (h1 : Reach g a b) (h2 : Reach g b c) : Reach g a c := by
+  induction h2 with
+  | base => exact h1
+  | step _ hm ih => exact Reach.step ih hm
+
+theorem runFifo_reach (g : Graph) : ∀ (f : Nat) (s s' : St), runFifo g f s = some s' → Reach g s s' ∧ s'.queue = [] := by
+  intro f
+  induction f with
+  | zero =>
+    intro s s' h
+    simp only [runFifo] at h
+    split at h
+    · cases h; exact ⟨Reach.base, by assumption⟩
+    · cases h
+  | succ f ih =>
+    intro s s' h
+    simp only [runFifo] at h
+    split at h
+    · cases h; exact ⟨Reach.base, by assumption⟩
+    · rename_i u rest hq
+      obtain ⟨hr, he⟩ := ih _ _ h
+      have hu : u ∈ s.queue := by rw [hq]; simp
+      exact ⟨reach_trans (Reach.step Reach.base hu) hr, he⟩
+
+end Receptor.Routing
+
+namespace Receptor.Routing
+
+/-- prev pointers exist only for labelled nodes -/
+def PrevCost (s : St) : Prop := ∀ v p, s.prev v = some p → ∃ c, s.cost v = some c
+
+theorem prevCost_improve {s : St} (h : PrevCost s) (u v : Node) (c : Nat) : PrevCost (improve s u v c) := by
+  intro x p hx
+  by_cases hxv : x = v
+  · subst hxv; exact ⟨c, by simp⟩
+  · rw [improve_prev_ne _ _ _ _ _ hxv] at hx
+    rw [improve_cost_ne _ _ _ _ _ hxv]
+    exact h x p hx
+
+theorem prevCost_relaxEdge {g : Graph} {s : St} (h : PrevCost s) (u : Node) (cu : Nat) (e : Node × Nat) :
+    PrevCost (relaxEdge g u cu s e) := by
+  unfold relaxEdge
+  split
+  · exact prevCost_improve h _ _ _
+  · exact h
+
+theorem prevCost_fold {g : Graph} (u : Node) (cu : Nat) : ∀ (es : List (Node × Nat)) (s : St), PrevCost s →
+    PrevCost (es.foldl (relaxEdge g u cu) s) := by
+  intro es
+  induction es with
+  | nil => intro s h; exact h
+  | cons e es ih => intro s h; exact ih _ (prevCost_relaxEdge h u cu e)
+
+theorem prevCost_popRelax {g : Graph} {s : St} (h : PrevCost s) (u : Node) : PrevCost (popRelax g s u) := by
+  unfold popRelax
+  have h1 : PrevCost { s with queue := s.queue.erase u } := h
+  split
+  · exact h1
+  · exact prevCost_fold u _ _ _ h1
+
+theorem prevCost_reach {g : Graph} {init s : St} (h0 : PrevCost init) (hr : Reach g init s) : PrevCost s := by
+  induction hr with
+  | base => exact h0
+  | step _ _ ih => exact prevCost_popRelax ih _
+
+theorem prevCost_init (src : Node) (keys : List Node) : PrevCost (initSt src keys) := by
+  intro v p h; simp [initSt] at h
+
+/-- an unlabelled node gets no table entry: the prev-chain walk stops at once -/
+theorem nextHop_none_of_unlabelled {s : St} (hp : PrevCost s) (src d : Node) (hd : s.cost d = none) :
+    ∀ fuel, nextHop s src fuel d = none := by
+  intro fuel
+  cases fuel with
+  | zero => rfl
+  | succ n =>
+    simp only [nextHop]
+    cases hpd : s.prev d with
+    | none => rfl
+    | some p =>
+      obtain ⟨c, hc⟩ := hp d p hpd
+      rw [hd] at hc; cases hc
+
+/-- with positive weights the prev-chain walk from a labelled node reaches the source:
+fuel `c + 1` suffices for a node labelled `c` -/
+theorem nextHop_total {g : Graph} {src : Node} {s : St} (hi : Inv g src s) (hq : s.queue = [])
+    (hpos : Positive g) (hkeys : ∀ v c, s.cost v = some c → v ≠ src → g.isKey v = true) :
+    ∀ (c : Nat) (d : Node), s.cost d = some c → d ≠ src → ∃ h, nextHop s src (c + 1) d = some h := by
+  intro c
+  induction c using Nat.strongRecOn with
+  | _ c ih =>
+    intro d hc hd
+    obtain ⟨p, w, cp, hp, hadj, hcp, heq⟩ := chain_eq hi hq d c hd hc (hkeys d c hc hd)
+    have hw : 0 < w := hpos p d w hadj
+    simp only [nextHop, hp]
+    by_cases hps : p = src
+    · exact ⟨d, by simp [hps]⟩
+    · simp only [hps, if_false]
+      obtain ⟨h, hh⟩ := ih cp (by omega) p hcp hps
+      -- more fuel never hurts
+      have mono : ∀ (f f' : Nat) (x : Node) (r : Node), nextHop s src f x = some r → f ≤ f' → nextHop s src f' x = some r := by
+        intro f
+        induction f with
+        | zero => intro f' x r h; simp [nextHop] at h
+        | succ n ihn =>
+          intro f' x r h hle
+          cases f' with
+          | zero => omega
+          | succ m =>
+            simp only [nextHop] at h ⊢
+            cases hpx : s.prev x with
+            | none => rw [hpx] at h; cases h
+            | some q =>
+              rw [hpx] at h
+              simp only at h ⊢
+              by_cases hqs : q = src
+              · simpa [hqs] using h
+              · simp only [hqs, if_false] at h ⊢
+                exact ihn m q r h (by omega)
+      exact ⟨h, mono _ _ _ _ hh (by omega)⟩
+
+/-- a list whose potential strictly decreases from each element to the next has no repeats -/
+theorem nodup_of_decreasing (φ : Node → Nat) : ∀ (l : List Node),
+    List.Pairwise (fun a b => φ b < φ a) l → l.Nodup := by
+  intro l h
+  induction h with
+  | nil => exact List.nodup_nil
+  | cons hx _ ih =>
+    refine List.nodup_cons.mpr ⟨?_, ih⟩
+    intro hm
+    have := hx _ hm
+    omega
+
+end Receptor.Routing
